@@ -57,6 +57,16 @@ def main():
         if not os.path.exists(os.path.join(rules, pid + ".py")):
             na.append({"property_id": pid, "reason": "static rules for this property are designed (DESIGN.md section 4) but not yet built in this tree; not claimed until they are"})
             continue
+        # the clauses as built: the rule ids of the last evidence file (own rules, and clauses shared with other
+        # properties as `<prop>.via.<rule>`), in front of the hand-written summary
+        try:
+            ev = json.load(open(os.path.join(HERE, "evidence", pid + ".json")))
+            rules_now = sorted(ev["coverage"]["per_rule"])
+            own = [r for r in rules_now if ".via." not in r]
+            shared = [r.split(".via.", 1)[1] for r in rules_now if ".via." in r]
+            decided = "rules " + ", ".join(own) + ((" and, shared with other properties, " + ", ".join(shared)) if shared else "") + " (each rule's statement is printed in the evidence file and in DESIGN.md section 10). Summary of the original core: " + decided
+        except (OSError, KeyError, ValueError):
+            pass
         checks.append({
             "property_id": pid,
             "quick_cmd": f"./check {pid} --tier quick",
@@ -68,7 +78,7 @@ def main():
             "level_claimed": {
                 "category": "other",
                 "text": "Static analysis of named structural clauses, each a necessary condition of the property, decided for all inputs/paths at once from the type-checked program (typed HIR + MIR facts dumped by a rustc_private driver under the real build flags), the bundled data files and the repository's own format documents. Decided: " + decided + ". This is not a proof of the whole behavioural property; it is the part of it whose truth is visible in the shape of the code.",
-                "design_ref": f"DESIGN.md section 4 ({pid})",
+                "design_ref": f"DESIGN.md section 4 ({pid}) and section 10 (as built)",
             },
             "level_note": "NOT decided by this check: " + notdec + ". Trusted: rustc nightly's front end as the description of the program; cargo reproducing the build flags; the Python rule engines (validated both ways on scratch variants, see selftest/variants.md); std and third-party crates as documented in DESIGN.md section 7. Nothing of /repo is executed.",
         })
